@@ -22,6 +22,8 @@ from hypothesis import strategies as st
 from vpbt import jaxgrammar as G
 from vpbt.ctx import Violation
 
+G.disable_persistent_compilation_cache()
+
 _P = {}
 
 
@@ -81,15 +83,29 @@ def is_nontrivial(prog):
     return G.has_cf(prog) or G.uses_closed_const(prog)
 
 
-def _compare(what, out, ref, case):
+PLATFORM = [0]
+
+
+def _compare(what, out, ref, case, second_opinion=None):
+    """structure and bit equality of every leaf. `second_opinion()` (optional) returns the flat outputs
+    of JAX's own jaxpr evaluator on the pure-JAX reference: if the interpreter agrees with that one
+    bit for bit, the disagreement is inside JAX's eager dispatch (see jaxgrammar.eval_jaxpr_reference)."""
     import jax.tree_util as jtu
 
     to, tr = jtu.tree_structure(out), jtu.tree_structure(ref)
     if to != tr:
         raise Violation("structure", f"{what}: output structure {to} differs from f's {tr}", case)
-    for j, (a, b) in enumerate(zip(jtu.tree_leaves(out), jtu.tree_leaves(ref))):
-        if not G.same_bits(a, b):
-            raise Violation("value:" + what.split(" ")[0], f"{what}: output leaf {j} = {G.show(a)} but ordinary evaluation gives {G.show(b)}", case)
+    lo, lr = jtu.tree_leaves(out), jtu.tree_leaves(ref)
+    bad = [j for j, (a, b) in enumerate(zip(lo, lr)) if not G.same_bits(a, b)]
+    if not bad:
+        return
+    if second_opinion is not None:
+        alt = second_opinion()
+        if len(alt) == len(lo) and all(G.same_bits(a, b) for a, b in zip(lo, alt)):
+            PLATFORM[0] += 1
+            return
+    j = bad[0]
+    raise Violation("value:" + what.split(" ")[0], f"{what}: output leaf {j} = {G.show(lo[j])} but ordinary evaluation gives {G.show(lr[j])}", case)
 
 
 def check_case(case, ctx=None):
@@ -113,11 +129,13 @@ def check_case(case, ctx=None):
     # A / B: eager
     for name, pt in (("val", val), ("alt", alt)):
         ref = f_ref(*pt)
-        _compare(f"eager stateful at {name}", sf(null, *pt), ref, case)
+        second = lambda pt=pt: G.eval_jaxpr_reference(f_ref, pt)
+        _compare(f"eager stateful at {name}", sf(null, *pt), ref, case, second)
         if isp:
-            _compare(f"isp-plain eager at {name}", f(*pt), ref, case)
+            _compare(f"isp-plain eager at {name}", f(*pt), ref, case, second)
     if ctx is not None and not ctx.replaying:
         ctx.extra["eqns_offered_to_handler"] = ctx.extra.get("eqns_offered_to_handler", 0) + null.asked
+        ctx.extra["jax_eager_inconsistency"] = PLATFORM[0]
     # C: jit
     if case.get("jit"):
         jref = jax.jit(f_ref)(*val)
@@ -128,13 +146,14 @@ def check_case(case, ctx=None):
     if case.get("vmap") and not isp:
         batched = tuple(jnp.stack([jnp.asarray(a), jnp.asarray(b)]) for a, b in zip(val, alt))
         vref = jax.vmap(f_ref)(*batched)
-        _compare("vmap stateful", jax.vmap(lambda *a: sf(Null(), *a))(*batched), vref, case)
+        second = lambda: jax.tree_util.tree_leaves(jax.vmap(lambda *a: G.eval_jaxpr_reference(f_ref, a))(*batched))
+        _compare("vmap stateful", jax.vmap(lambda *a: sf(Null(), *a))(*batched), vref, case, second)
     # E: handled
     if isp:
         sites = [op for op in prog["ops"] if op["op"] == "isp"]
         f_handled = G.build(prog, isp="handled", handled=handled_fn)
         h = Handling(_prim())
-        _compare("handled eager", sf(h, *val), f_handled(*val), case)
+        _compare("handled eager", sf(h, *val), f_handled(*val), case, lambda: G.eval_jaxpr_reference(f_handled, val))
         if h.calls != len(sites):
             raise Violation("handler-calls", f"handler dispatched {h.calls} times for {len(sites)} bind sites", case)
 
@@ -174,7 +193,7 @@ def run(ctx):
 
     def chk(case):
         state["n"] += 1
-        if state["n"] % 20 == 0:
+        if state["n"] % 25 == 0:
             jax.clear_caches()
         ctx.note_case(case, nontrivial=is_nontrivial(case["prog"]), classes=classes_of(case))
         check_case(case, ctx)
